@@ -1,3 +1,19 @@
+/-
+  C09 (Markdown round trip), third fragment: CODE BLOCKS in the renderer's normal form, added to the blocks
+  of `Proofs/MdRoundBlocks.lean` (prose paragraphs, ATX headings, thematic breaks).
+
+  * fenced code block `Blk2.fence d info body`: opening line `d ++ info ++ "\n"` at indentation 0 (`d` = three or
+    more backticks or tildes; `info` reproduced verbatim — `render_fenced_code_block` writes
+    `indentation + delimiter + info_string`), the content lines, the closing line `d ++ "\n"`;
+  * indented code block `Blk2.icode lines`: four spaces + non-blank text on every line, no blank line inside.
+
+  Chain, as for `Blk`: `tokenize_items2` (block phase under the Markdown renderer's token list, every parser
+  state) → `mkBlocks_itemEntries2` (constructors) → `renderBlocks_items2` (renderer) → `itemsOut2_lines` (text).
+  Main theorems (namespace `Mistletoe.MdRoundCode`): `C09_code_blocks_exact_partial` (top level, tabs allowed),
+  `C09_quoted_code_blocks_exact_partial` (inside `k` block quotes, tab-free; the generic quote lemmas of
+  `Proofs/MdRound.lean` apply unchanged), `C09_code_blocks_roundtrip_markdown`,
+  `C09_quoted_code_blocks_roundtrip_markdown` (from the `str`, `Config.markdown`, idempotence, same meaning).
+-/
 import Mistletoe.Proofs.MdRoundBlocks
 namespace Mistletoe.MdRound
 open Mistletoe Mistletoe.Py Mistletoe.Scan Mistletoe.Block Mistletoe.Wrap Mistletoe.Markdown Mistletoe.InertInline
@@ -816,4 +832,456 @@ theorem mkBlocks_itemEntries2 (cfg : Document.Cfg) (fn : Footnotes.Table)
     rw [mkBlock_item2 cfg fn ht hc it hok ln og]
     simp only [mkBlock, ih]
 
+
+/-! ### the renderer -/
+
+theorem splitNlAux_text : ∀ (u rest cur : Str), '\n' ∉ u → splitNlAux (u ++ rest) cur = splitNlAux rest (u.reverse ++ cur)
+  | [], _, _, _ => by simp
+  | c :: u, rest, cur, h => by
+    have hc : c ≠ '\n' := fun e => h (by simp [e])
+    have ih := splitNlAux_text u rest (c :: cur) (fun e => h (List.mem_cons_of_mem _ e))
+    simp only [List.cons_append, splitNlAux, hc, if_false, ih]
+    simp
+
+/-- `content[:-1].split("\n")` on the joined complete lines: the texts of the lines -/
+theorem splitNl_lines : ∀ (ts : List Str), ts ≠ [] → (∀ t ∈ ts, Complete t) →
+    splitNl ts.flatten.dropLast = ts.map List.dropLast
+  | [], h, _ => absurd rfl h
+  | [t], _, h => by
+    obtain ⟨h1, h2⟩ := h t (by simp)
+    have e : [t].flatten.dropLast = t.dropLast := by simp
+    rw [e]
+    have := splitNlAux_text t.dropLast [] [] h2
+    simp only [List.append_nil] at this
+    simp [splitNl, this, splitNlAux]
+  | t :: t2 :: ts, _, h => by
+    obtain ⟨h1, h2⟩ := h t (by simp)
+    have ih := splitNl_lines (t2 :: ts) (by simp) (fun x hx => h x (List.mem_cons_of_mem _ hx))
+    have hne : (t2 :: ts).flatten ≠ [] := by
+      have := (h t2 (by simp)).1
+      intro e
+      simp only [List.flatten_cons, List.append_eq_nil_iff] at e
+      rw [e.1] at this
+      simp at this
+    have e : (t :: t2 :: ts).flatten.dropLast = t.dropLast ++ '\n' :: (t2 :: ts).flatten.dropLast := by
+      rw [List.flatten_cons, List.dropLast_append_of_ne_nil hne]
+      conv => lhs; rw [h1]
+      simp
+    rw [e]
+    simp only [splitNl] at ih ⊢
+    rw [splitNlAux_text _ _ _ h2]
+    simp only [splitNlAux, if_true, ih]
+    simp
+
+theorem prefixLinesAux_vis (p : Str) : ∀ (ls : List Str), (∀ l ∈ ls, p ++ l = [] ∨ (p ++ l).all pyIsSpace = false) →
+    prefixLinesAux p ls = ls.map (p ++ ·)
+  | [], _ => rfl
+  | l :: ls, h => by
+    have ih := prefixLinesAux_vis p ls (fun x hx => h x (List.mem_cons_of_mem _ hx))
+    have : (!(p ++ l).isEmpty && (p ++ l).all pyIsSpace) = false := by
+      rcases h l (by simp) with e | e
+      · rw [e]; rfl
+      · rw [e]; simp
+    simp only [prefixLinesAux, this, Bool.false_eq_true, if_false, ih, List.map_cons]
+
+/-- `prefix_lines(lines, p)` when no prefixed line is all whitespace (such lines are written empty) -/
+theorem prefixLines_vis (p : Str) (ls : List Str) (h : ∀ l ∈ ls, p ++ l = [] ∨ (p ++ l).all pyIsSpace = false) :
+    prefixLines ls p none = ls.map (p ++ ·) := by
+  cases ls with
+  | nil => rfl
+  | cons l ls =>
+    have : (!(p ++ l).isEmpty && (p ++ l).all pyIsSpace) = false := by
+      rcases h l (by simp) with e | e
+      · rw [e]; rfl
+      · rw [e]; simp
+    simp only [prefixLines, this, Bool.false_eq_true, if_false, List.map_cons,
+      prefixLinesAux_vis p ls (fun x hx => h x (List.mem_cons_of_mem _ hx))]
+
+/-- the lines the renderer writes for one block -/
+def itemOut2 : Blk2 → List Str
+  | .blk b => itemOut b
+  | .fence d info body => (d ++ info) :: (body.map List.dropLast ++ [d])
+  | .icode ls => ls.map List.dropLast
+
+def itemsOut2 : Blk2 → List Blk2 → List Str
+  | it, [] => itemOut2 it
+  | it, it' :: rest => itemOut2 it ++ [] :: itemsOut2 it' rest
+
+theorem renderBlock_item2 (o : Opts) (it : Blk2) (hok : it.ok = true) (ln : Nat) :
+    renderBlock o none (itemBlock2 ln it) = .ok (itemOut2 it) := by
+  cases it with
+  | blk b => exact renderBlock_item o b hok ln
+  | fence d info body =>
+    obtain ⟨_, _, hbody⟩ := fenceOk_of d info body hok
+    simp only [itemBlock2, itemOut2, renderBlock, spaces, List.replicate_zero, List.nil_append]
+    cases body with
+    | nil => simp
+    | cons l body' =>
+      have hne : (l :: body').flatten.isEmpty = false := by
+        have := (oneLine_complete l (hbody l (by simp)).one).1
+        cases l with
+        | nil => simp at this
+        | cons a b => rfl
+      have h1 := splitNl_lines (l :: body') (by simp) (fun t ht => oneLine_complete t (hbody t ht).one)
+      have h2 := prefixLines_vis [] ((l :: body').map List.dropLast) (by
+        intro x hx
+        obtain ⟨t, ht, rfl⟩ := List.mem_map.mp hx
+        exact (hbody t ht).vis)
+      simp only [hne, Bool.false_eq_true, if_false, codeLines, h1, h2, List.nil_append, List.map_id']
+  | icode ls =>
+    obtain ⟨hne, hl⟩ := icodeOk_of ls hok
+    have hct : ∀ t ∈ ls.map (fun s => s.drop 4), CodeText t := by
+      intro t ht'; obtain ⟨s, hs, rfl⟩ := List.mem_map.mp ht'; exact codeText_of s (hl s hs)
+    have h1 := splitNl_lines (ls.map (fun s => s.drop 4)) (by simpa using hne) (fun t ht => (hct t ht).comp)
+    have h2 := prefixLines_vis (spaces 4) ((ls.map (fun s => s.drop 4)).map List.dropLast) (by
+      intro x hx
+      obtain ⟨t, ht, rfl⟩ := List.mem_map.mp hx
+      right
+      simp only [List.all_append, (hct t ht).vis, Bool.and_false])
+    simp only [itemBlock2, itemOut2, renderBlock, codeLines, h1, h2]
+    simp only [List.map_map]
+    congr 1
+    apply List.map_congr_left
+    intro s hs
+    obtain ⟨t, rfl⟩ := (hl s hs).ind
+    have ht : t ≠ [] := by
+      have := (codeText_of _ (hl _ hs)).comp.1
+      intro e
+      rw [e] at this
+      simp at this
+    cases t with
+    | nil => exact absurd rfl ht
+    | cons a b => simp [spaces, List.replicate, List.dropLast]
+
+theorem renderBlocks_items2 (o : Opts) : ∀ (rest : List Blk2) (it : Blk2) (ln : Nat),
+    it.ok = true → (∀ x ∈ rest, x.ok = true) →
+    renderBlocks o none (itemBlocks2 ln it rest) = .ok (itemsOut2 it rest)
+  | [], it, ln, hok, _ => by
+    simp only [itemBlocks2, itemsOut2, renderBlocks, renderBlock_item2 o it hok ln]
+    simp
+  | it' :: rest, it, ln, hok, hr => by
+    have ih := renderBlocks_items2 o rest it' (ln + it.lines.length + 1) (hr it' (by simp)) (fun x hx => hr x (List.mem_cons_of_mem _ hx))
+    simp only [itemBlocks2, itemsOut2, renderBlocks, renderBlock_item2 o it hok ln, renderBlock, ih]
+    simp
+
+
+/-! ### the text -/
+
+theorem dropLast_nl_lines (ls : List Str) (h : ∀ l ∈ ls, Complete l) : (ls.map List.dropLast).map (· ++ ['\n']) = ls := by
+  rw [List.map_map]
+  conv => rhs; rw [← List.map_id ls]
+  exact List.map_congr_left (fun l hl => (h l hl).1.symm)
+
+theorem itemOut2_lines (it : Blk2) (hok : it.ok = true) : (itemOut2 it).map (· ++ ['\n']) = it.lines := by
+  cases it with
+  | blk b => exact itemOut_lines b hok
+  | fence d info body =>
+    obtain ⟨_, _, hbody⟩ := fenceOk_of d info body hok
+    simp only [itemOut2, Blk2.lines, List.map_cons, List.map_append, List.map_nil,
+      dropLast_nl_lines body (fun l hl => oneLine_complete l (hbody l hl).one)]
+  | icode ls =>
+    obtain ⟨_, hl⟩ := icodeOk_of ls hok
+    exact dropLast_nl_lines ls (fun l hl' => oneLine_complete l (hl l hl').one)
+
+theorem itemsOut2_lines : ∀ (rest : List Blk2) (it : Blk2), it.ok = true → (∀ x ∈ rest, x.ok = true) →
+    (itemsOut2 it rest).map (· ++ ['\n']) = itemsLines2 it rest
+  | [], it, hok, _ => by simp only [itemsOut2, itemsLines2, itemOut2_lines it hok]
+  | it' :: rest, it, hok, hr => by
+    have ih := itemsOut2_lines rest it' (hr it' (by simp)) (fun x hx => hr x (List.mem_cons_of_mem _ hx))
+    simp only [itemsOut2, itemsLines2, List.map_append, List.map_cons, itemOut2_lines it hok, ih, List.nil_append]
+
+/-- a string without line-boundary characters, then "\n", is one line -/
+theorem oneLine_text (u : Str) (h : ∀ c ∈ u, isLineSep c = false) : oneLine (u ++ ['\n']) = true := by
+  simp only [oneLine, Bool.and_eq_true, beq_iff_eq, List.all_eq_true, Bool.not_eq_eq_eq_not, Bool.not_true]
+  refine ⟨by rw [List.getLast?_append]; rfl, ?_⟩
+  intro c hc
+  rw [List.dropLast_concat] at hc
+  exact h c hc
+
+theorem item2_oneLine (it : Blk2) (hok : it.ok = true) : ∀ l ∈ it.lines, oneLine l = true := by
+  cases it with
+  | blk b => exact item_oneLine b hok
+  | fence d info body =>
+    obtain ⟨⟨c, hf⟩, hinfo, hbody⟩ := fenceOk_of d info body hok
+    have hd : ∀ x ∈ d, isLineSep x = false := by
+      intro x hx
+      rw [hf.rep] at hx
+      simp only [List.mem_replicate] at hx
+      rw [hx.2]
+      rcases hf.ch with e | e <;> rw [e] <;> decide
+    intro l hl
+    simp only [Blk2.lines, List.mem_cons, List.mem_append, List.mem_nil_iff, or_false] at hl
+    rcases hl with rfl | hl | rfl
+    · apply oneLine_text
+      intro x hx
+      rcases List.mem_append.mp hx with hx | hx
+      · exact hd x hx
+      · exact hinfo x hx
+    · exact (hbody l hl).one
+    · exact oneLine_text d hd
+  | icode ls =>
+    obtain ⟨_, hl⟩ := icodeOk_of ls hok
+    exact fun l hl' => (hl l hl').one
+
+theorem items2_oneLine : ∀ (rest : List Blk2) (it : Blk2), it.ok = true → (∀ x ∈ rest, x.ok = true) →
+    ∀ l ∈ itemsLines2 it rest, oneLine l = true
+  | [], it, hok, _ => by simpa [itemsLines2] using item2_oneLine it hok
+  | it' :: rest, it, hok, hr => by
+    have ih := items2_oneLine rest it' (hr it' (by simp)) (fun x hx => hr x (List.mem_cons_of_mem _ hx))
+    intro l hl
+    simp only [itemsLines2, List.mem_append, List.mem_cons] at hl
+    rcases hl with hl | rfl | hl
+    · exact item2_oneLine it hok l hl
+    · decide
+    · exact ih l hl
+
+theorem item2_lines_ne (it : Blk2) (hok : it.ok = true) : it.lines ≠ [] := by
+  cases it with
+  | blk b => exact item_lines_len_pos b hok
+  | fence d info body => simp [Blk2.lines]
+  | icode ls => exact (icodeOk_of ls hok).1
+
+theorem itemsLines2_ne (it : Blk2) (rest : List Blk2) (hok : it.ok = true) : itemsLines2 it rest ≠ [] := by
+  have := item2_lines_ne it hok
+  cases rest <;> simp [itemsLines2, this]
+
 end Mistletoe.MdRound
+
+/-! ### C09 for the fragment with code blocks -/
+namespace Mistletoe.MdRoundCode
+open Mistletoe Mistletoe.Py Mistletoe.Block Mistletoe.Inline Mistletoe.InertInline Mistletoe.MdRound
+open Mistletoe.Props.C14 (inertLine joinBlank markdownTypes)
+
+/-- **Paragraphs, ATX headings, thematic breaks, fenced code blocks and indented code blocks in the
+    renderer's normal form are reproduced byte for byte** (top level).  The blocks `it, rest` (`Blk2.ok`) are
+    separated by single empty lines, no two indented code blocks are adjacent (`adjOk`); the block token types
+    are the Markdown renderer's list, the span classes are covered ones with `LineBreak` once.  Then
+    `Document(lines)` succeeds, its children are `Paragraph` / `Heading` / `ThematicBreak` / `CodeFence` /
+    `BlockCode` tokens with `BlankLine`s between them, and `MarkdownRenderer().render` (no line limit) gives
+    back exactly the concatenated lines.
+    `_partial`: the normal form `Blk2.ok` is a hypothesis.  For a fenced block it excludes what the renderer
+    (or the parser) does change: a content line made only of whitespace (written back empty by `prefix_lines`),
+    an info string that begins with the fence character or, behind backticks, contains a backtick (not a
+    fence), content lines that close the fence, an indented opening fence, a missing closing fence. -/
+theorem C09_code_blocks_exact_partial (cfg : Document.Cfg) (hty : cfg.block.types = markdownTypes)
+    (ht : ∀ t ∈ cfg.span, inertClass t = true) (hc : cfg.span.count .lineBreak = 1)
+    (it : Blk2) (rest : List Blk2) (hok : it.ok = true) (hrest : ∀ x ∈ rest, x.ok = true) (hadj : adjOk it rest = true)
+    (o : Markdown.Opts) (ho : o.maxLineLength = none) (gas : Nat) :
+    ∃ d, Document.parseLines cfg (gas + (2 * rest.length + 14)) (itemsLines2 it rest) = .ok d ∧
+      d.kids = itemBlocks2 1 it rest ∧
+      Markdown.renderRes o d = .ok (itemsLines2 it rest).flatten ∧
+      Markdown.render o d = (itemsLines2 it rest).flatten := by
+  have hphase : blockPhase cfg.block (gas + (2 * rest.length + 14)) (itemsLines2 it rest) =
+      .ok ({ entries := itemEntries2 1 1 it rest, loose := false }, {}) :=
+    tokenize_items2 cfg.block hty it rest hok hrest hadj gas {}
+  have hmk := mkBlocks_itemEntries2 cfg (Document.footnotesOf []) ht hc rest it 1 1 hok hrest
+  have hout := renderBlocks_items2 o rest it 1 hok hrest
+  have htext : Markdown.joinLines (itemsOut2 it rest) = (itemsLines2 it rest).flatten := by
+    rw [joinLines_eq, itemsOut2_lines rest it hok hrest]
+  have hres : Markdown.renderRes o { kids := itemBlocks2 1 it rest, footnotes := Document.footnotesOf [] } =
+      .ok (itemsLines2 it rest).flatten := by
+    simp only [Markdown.renderRes, ho, hout, htext]
+  refine ⟨{ kids := itemBlocks2 1 it rest, footnotes := Document.footnotesOf [] }, ?_, rfl, hres, ?_⟩
+  · unfold Document.parseLines
+    rw [hphase]
+    simp only
+    rw [hmk]
+  · simp only [Markdown.render, hres]
+
+/-- **The same inside `k` nested block quotes** ("> " before every line, the way the renderer writes them),
+    for tab-free lines (`Quote.convert_leading_tabs` rewrites tabs). -/
+theorem C09_quoted_code_blocks_exact_partial (cfg : Document.Cfg) (hty : cfg.block.types = markdownTypes)
+    (ht : ∀ t ∈ cfg.span, inertClass t = true) (hc : cfg.span.count .lineBreak = 1)
+    (it : Blk2) (rest : List Blk2) (hok : it.ok = true) (hrest : ∀ x ∈ rest, x.ok = true) (hadj : adjOk it rest = true)
+    (hnt : ∀ l ∈ itemsLines2 it rest, '\t' ∉ l) (k : Nat)
+    (o : Markdown.Opts) (ho : o.maxLineLength = none) (gas : Nat) :
+    ∃ d, Document.parseLines cfg (gas + (2 * rest.length + 14) + k * 8) (qStrs k (itemsLines2 it rest)) = .ok d ∧
+      d.kids = qBlocks 1 (itemBlocks2 1 it rest) k ∧
+      Markdown.renderRes o d = .ok (qStrs k (itemsLines2 it rest)).flatten ∧
+      Markdown.render o d = (qStrs k (itemsLines2 it rest)).flatten := by
+  obtain ⟨s, ss', hss⟩ : ∃ s ss', itemsLines2 it rest = s :: ss' := by
+    cases hj : itemsLines2 it rest with
+    | nil => exact absurd hj (itemsLines2_ne it rest hok)
+    | cons s ss' => exact ⟨s, ss', rfl⟩
+  have hnum : Mistletoe.Props.C14.numbered 0 (itemsLines2 it rest) = { s := s, origin := 1 } :: Mistletoe.Props.C14.numbered 1 ss' := by
+    rw [hss, Mistletoe.Props.C14.numbered_cons]
+  have h0 : ∀ st, tokenizeBlock cfg.block (gas + (2 * rest.length + 14)) ({ s := s, origin := 1 } :: Mistletoe.Props.C14.numbered 1 ss') 1 st =
+      .ok ({ entries := itemEntries2 1 1 it rest, loose := false }, st) := by
+    intro st
+    have := tokenize_items2 cfg.block hty it rest hok hrest hadj gas st
+    rwa [hnum] at this
+  have hnt' : ∀ l ∈ ({ s := s, origin := 1 } : Line) :: Mistletoe.Props.C14.numbered 1 ss', '\t' ∉ l.s := by
+    intro l hl
+    rw [← hnum] at hl
+    exact hnt _ (Mistletoe.Props.C14.numbered_mem _ _ _ hl)
+  obtain ⟨st', hq, hd⟩ := tokenize_qLines cfg.block
+    [.linkRefDefBlock, .blankLine, .htmlBlock, .blockCode, .heading] [.codeFence, .thematicBreak, .list, .table, .paragraph]
+    (by rw [hty]; rfl) (by decide) (by decide) _ _ hnt' 1 _ _ h0 k {}
+  have hphase : blockPhase cfg.block (gas + (2 * rest.length + 14) + k * 8) (qStrs k (itemsLines2 it rest)) =
+      .ok ({ entries := qEntries 1 1 (itemEntries2 1 1 it rest) k, loose := false }, st') := by
+    have e : ∀ g ls, blockPhase cfg.block g ls = tokenizeBlock cfg.block g (Mistletoe.Props.C14.numbered 0 ls) 1 {} := fun _ _ => rfl
+    rw [e, numbered_qStrs, hnum]
+    exact hq
+  have hdefs : st'.defs = [] := hd
+  have hmk := mkBlocks_qEntries cfg (Document.footnotesOf []) 1 1 _ _
+    (mkBlocks_itemEntries2 cfg (Document.footnotesOf []) ht hc rest it 1 1 hok hrest) k
+  have hout := renderBlocks_qBlocks o 1 _ _ (renderBlocks_items2 o rest it 1 hok hrest) k
+  have htext : Markdown.joinLines (qStrs k (itemsOut2 it rest)) = (qStrs k (itemsLines2 it rest)).flatten := by
+    rw [joinLines_eq, qStrs_nl, itemsOut2_lines rest it hok hrest]
+  have hres : Markdown.renderRes o { kids := qBlocks 1 (itemBlocks2 1 it rest) k, footnotes := Document.footnotesOf [] } =
+      .ok (qStrs k (itemsLines2 it rest)).flatten := by
+    simp only [Markdown.renderRes, ho, hout, htext]
+  refine ⟨{ kids := qBlocks 1 (itemBlocks2 1 it rest) k, footnotes := Document.footnotesOf [] }, ?_, rfl, hres, ?_⟩
+  · unfold Document.parseLines
+    rw [hphase]
+    simp only [hdefs]
+    rw [hmk]
+  · simp only [Markdown.render, hres]
+
+theorem markdown_cfg_facts (cfg : Document.Cfg) (hcfg : Config.markdown = some cfg) :
+    cfg.block.types = markdownTypes ∧ (∀ t ∈ cfg.span, inertClass t = true) ∧ cfg.span.count .lineBreak = 1 := by
+  obtain ⟨_, ht, hc⟩ := Mistletoe.Props.C14.C14_config_covered cfg (Or.inr (Or.inl hcfg))
+  have hty : cfg.block.types = markdownTypes := by
+    have := Mistletoe.Props.C14.C14_config_current.2
+    rw [hcfg] at this
+    simpa using this
+  exact ⟨hty, ht, hc⟩
+
+/-- **The same from a `str`, for the token lists of the working tree** (`Config.markdown`), with the two
+    corollaries: rendering again reproduces the text, and the rendered text parses like the original under
+    every configuration (same document, same link definitions, same HTML). -/
+theorem C09_code_blocks_roundtrip_markdown (cfg : Document.Cfg) (hcfg : Config.markdown = some cfg)
+    (it : Blk2) (rest : List Blk2) (hok : it.ok = true) (hrest : ∀ x ∈ rest, x.ok = true) (hadj : adjOk it rest = true)
+    (o : Markdown.Opts) (ho : o.maxLineLength = none) (gas : Nat) :
+    ∃ d, Document.parse cfg (gas + (2 * rest.length + 14)) (itemsLines2 it rest).flatten = .ok d ∧
+      Markdown.render o d = (itemsLines2 it rest).flatten ∧
+      (∃ d', Document.parse cfg (gas + (2 * rest.length + 14)) (Markdown.render o d) = .ok d' ∧
+        Markdown.render o d' = Markdown.render o d) ∧
+      (∀ (cfg' : Document.Cfg) (g : Nat),
+        Document.parse cfg' g (Markdown.render o d) = Document.parse cfg' g (itemsLines2 it rest).flatten) ∧
+      (∀ (hopts : Html.Opts) (g : Nat),
+        Config.renderHtml hopts g (Markdown.render o d) = Config.renderHtml hopts g (itemsLines2 it rest).flatten) := by
+  obtain ⟨hty, ht, hc⟩ := markdown_cfg_facts cfg hcfg
+  have h1 := items2_oneLine rest it hok hrest
+  obtain ⟨d, h, _, _, h3⟩ := C09_code_blocks_exact_partial cfg hty ht hc it rest hok hrest hadj o ho gas
+  rw [← parse_lines cfg _ _ h1] at h
+  refine ⟨d, h, h3, ⟨d, ?_, rfl⟩, fun _ _ => by rw [h3], fun _ _ => by rw [h3]⟩
+  rw [h3]; exact h
+
+/-- the quoted version from a `str`, with the same corollaries -/
+theorem C09_quoted_code_blocks_roundtrip_markdown (cfg : Document.Cfg) (hcfg : Config.markdown = some cfg)
+    (it : Blk2) (rest : List Blk2) (hok : it.ok = true) (hrest : ∀ x ∈ rest, x.ok = true) (hadj : adjOk it rest = true)
+    (hnt : ∀ l ∈ itemsLines2 it rest, '\t' ∉ l) (k : Nat)
+    (o : Markdown.Opts) (ho : o.maxLineLength = none) (gas : Nat) :
+    ∃ d, Document.parse cfg (gas + (2 * rest.length + 14) + k * 8) (qStrs k (itemsLines2 it rest)).flatten = .ok d ∧
+      Markdown.render o d = (qStrs k (itemsLines2 it rest)).flatten ∧
+      (∃ d', Document.parse cfg (gas + (2 * rest.length + 14) + k * 8) (Markdown.render o d) = .ok d' ∧
+        Markdown.render o d' = Markdown.render o d) ∧
+      (∀ (cfg' : Document.Cfg) (g : Nat),
+        Document.parse cfg' g (Markdown.render o d) = Document.parse cfg' g (qStrs k (itemsLines2 it rest)).flatten) ∧
+      (∀ (hopts : Html.Opts) (g : Nat),
+        Config.renderHtml hopts g (Markdown.render o d) = Config.renderHtml hopts g (qStrs k (itemsLines2 it rest)).flatten) := by
+  obtain ⟨hty, ht, hc⟩ := markdown_cfg_facts cfg hcfg
+  have h1 := qStrs_oneLine k _ (items2_oneLine rest it hok hrest)
+  obtain ⟨d, h, _, _, h3⟩ := C09_quoted_code_blocks_exact_partial cfg hty ht hc it rest hok hrest hadj hnt k o ho gas
+  rw [← parse_lines cfg _ _ h1] at h
+  refine ⟨d, h, h3, ⟨d, ?_, rfl⟩, fun _ _ => by rw [h3], fun _ _ => by rw [h3]⟩
+  rw [h3]; exact h
+
+
+/-! ### Non-vacuity -/
+
+def L (s : String) : Str := s.toList
+
+/-- the Markdown renderer's token lists as literals -/
+def mdCfg : Document.Cfg :=
+  { block := { types := markdownTypes },
+    span := [.escapeSequence, .htmlSpan, .strikethrough, .autoLink, .coreTokens, .inlineCode, .lineBreak] }
+
+theorem mdCfg_ok : mdCfg.block.types = markdownTypes ∧ (∀ t ∈ mdCfg.span, inertClass t = true) ∧
+    mdCfg.span.count .lineBreak = 1 := by decide
+
+/-- `mdCfg` is the configuration of the working tree (so the examples are about `Config.markdown`) -/
+example : Config.markdown.map (fun c => (c.block.types, c.block.tableInterrupt, c.span)) =
+    some (mdCfg.block.types, mdCfg.block.tableInterrupt, mdCfg.span) := by decide +kernel
+
+/-- `# T`, a fenced block with info `py` and three content lines (one empty, one starting with `#`), a paragraph -/
+def doc1 : Blk2 := .blk (.heading 1 (L "T"))
+def doc1rest : List Blk2 :=
+  [.fence (L "```") (L "py") [L "x = 1\n", L "\n", L "# not a heading\n"], .blk (.para [L "last line.\n"])]
+
+theorem doc1_ok : doc1.ok = true ∧ (∀ x ∈ doc1rest, x.ok = true) ∧ adjOk doc1 doc1rest = true := by decide +kernel
+
+example : (itemsLines2 doc1 doc1rest).flatten = L "# T\n\n```py\nx = 1\n\n# not a heading\n```\n\nlast line.\n" := by
+  decide +kernel
+
+/-- the theorem applies … -/
+example : ∃ d, Document.parseLines mdCfg 18 (itemsLines2 doc1 doc1rest) = .ok d ∧
+    Markdown.render {} d = (itemsLines2 doc1 doc1rest).flatten := by
+  obtain ⟨d, h1, _, _, h3⟩ := C09_code_blocks_exact_partial mdCfg mdCfg_ok.1 mdCfg_ok.2.1 mdCfg_ok.2.2
+    doc1 doc1rest doc1_ok.1 doc1_ok.2.1 doc1_ok.2.2 {} rfl 0
+  exact ⟨d, h1, h3⟩
+
+/-- … and the kernel evaluation of parser and renderer on that text agrees -/
+example : (Document.parse mdCfg 18 (L "# T\n\n```py\nx = 1\n\n# not a heading\n```\n\nlast line.\n")).bind
+    (fun d => Markdown.renderRes {} d) = .ok (L "# T\n\n```py\nx = 1\n\n# not a heading\n```\n\nlast line.\n") := by
+  decide +kernel
+
+/-- a tilde fence whose info string contains a backtick and ends in spaces, with an empty body; an indented
+    code block (deeper indentation kept); a backtick fence of four with a three-backtick content line and a
+    content line indented by four spaces that looks like a fence; all inside two block quotes -/
+def doc2 : Blk2 := .fence (L "~~~") (L " a`b  ") []
+def doc2rest : List Blk2 :=
+  [.icode [L "    code\n", L "      deeper [x]\n"], .blk (.hr '*'),
+   .fence (L "````") (L "") [L "```\n", L "    ````\n", L "  text \n"], .icode [L "    last\n"]]
+
+theorem doc2_ok : doc2.ok = true ∧ (∀ x ∈ doc2rest, x.ok = true) ∧ adjOk doc2 doc2rest = true ∧
+    (∀ l ∈ itemsLines2 doc2 doc2rest, '\t' ∉ l) := by decide +kernel
+
+example : ∃ d, Document.parseLines mdCfg 38 (qStrs 2 (itemsLines2 doc2 doc2rest)) = .ok d ∧
+    Markdown.render {} d = (qStrs 2 (itemsLines2 doc2 doc2rest)).flatten := by
+  obtain ⟨d, h1, _, _, h3⟩ := C09_quoted_code_blocks_exact_partial mdCfg mdCfg_ok.1 mdCfg_ok.2.1 mdCfg_ok.2.2
+    doc2 doc2rest doc2_ok.1 doc2_ok.2.1 doc2_ok.2.2.1 doc2_ok.2.2.2 2 {} rfl 0
+  exact ⟨d, h1, h3⟩
+
+example : (itemsLines2 doc2 doc2rest).flatten =
+    L "~~~ a`b  \n~~~\n\n    code\n      deeper [x]\n\n***\n\n````\n```\n    ````\n  text \n````\n\n    last\n" := by
+  decide +kernel
+
+example : (Document.parse mdCfg 22
+      (L "~~~ a`b  \n~~~\n\n    code\n      deeper [x]\n\n***\n\n````\n```\n    ````\n  text \n````\n\n    last\n")).bind
+    (fun d => Markdown.renderRes {} d) =
+      .ok (L "~~~ a`b  \n~~~\n\n    code\n      deeper [x]\n\n***\n\n````\n```\n    ````\n  text \n````\n\n    last\n") := by
+  decide +kernel
+
+example : (Document.parse mdCfg 30 (L "> ```py\n> x\n> \n> ```\n> \n>     code\n")).bind (fun d => Markdown.renderRes {} d) =
+    .ok (L "> ```py\n> x\n> \n> ```\n> \n>     code\n") := by decide +kernel
+
+/-- the round trip from the `str` under `Config.markdown` -/
+example (cfg : Document.Cfg) (hcfg : Config.markdown = some cfg) :
+    ∃ d, Document.parse cfg 18 (itemsLines2 doc1 doc1rest).flatten = .ok d ∧
+      Markdown.render {} d = (itemsLines2 doc1 doc1rest).flatten := by
+  obtain ⟨d, h1, h2, _⟩ := C09_code_blocks_roundtrip_markdown cfg hcfg doc1 doc1rest doc1_ok.1 doc1_ok.2.1 doc1_ok.2.2 {} rfl 0
+  exact ⟨d, h1, h2⟩
+
+/-! ### what the normal form excludes (model and implementation agree; run on /repo, see the report)
+
+  * a content line made only of whitespace is written back empty (`prefix_lines`: `prefixed.isspace()`);
+  * a tilde info string beginning with `~` belongs to the fence (so the closing fence written is longer);
+  * a content line that closes the fence ends the block. -/
+example : bodyLineOk (L "```") (L "   \n") = false := by decide +kernel
+example : (Document.parse mdCfg 18 (L "```\n   \n```\n")).bind (fun d => Markdown.renderRes {} d) = .ok (L "```\n\n```\n") := by
+  decide +kernel
+example : (Blk2.fence (L "~~~") (L "~x") [L "y\n"]).ok = false := by decide +kernel
+example : (Document.parse mdCfg 18 (L "~~~~x\ny\n~~~\n")).bind (fun d => Markdown.renderRes {} d) = .ok (L "~~~~x\ny\n~~~\n~~~~\n") := by
+  decide +kernel
+example : bodyLineOk (L "```") (L "````\n") = false := by decide +kernel
+example : (Document.parse mdCfg 18 (L "```\n````\n```\n")).bind (fun d => Markdown.renderRes {} d) = .ok (L "```\n```\n```\n```\n") := by
+  decide +kernel
+
+/-- two adjacent indented code blocks are outside `adjOk` only because the parser reads them as ONE `BlockCode`
+    (the tree is not `itemBlocks2`); the text is still reproduced -/
+example : (Document.parse mdCfg 18 (L "    a\n\n    b\n")).bind (fun d => Markdown.renderRes {} d) = .ok (L "    a\n\n    b\n") := by
+  decide +kernel
+
+end Mistletoe.MdRoundCode
